@@ -676,7 +676,26 @@ def _directed():
                              g.cmp('>', g.column('B', 'w'), g.lit(0)))),
         g.query(g.join(a, b, 'right', g.cmp('==', g.column('A', 'x'), g.column('B', 'x'))),
                 select=(g.column('A', 'x'), g.column('B', 'w'))),
-    ]
+    ] + referenced_joins()
+
+
+def referenced_joins():
+    """A join given a name (``join.reference('j')``) and used through that handle - alone, filtered, ordered, joined on."""
+    from vlib import dslgen as g
+
+    a, b, c = g.table('A'), g.table('B'), g.table('C')
+    out = []
+    for kind in ('inner', 'left', 'right', 'full'):
+        j = g.reference(g.join(a, c, kind, g.cmp('==', g.column('A', 'x'), g.column('C', 'k'))), f'j{kind[0]}')
+        name = f'j{kind[0]}'
+        out.append(g.query(j, select=(g.column(name, 'y'), g.column(name, 'v'))))
+        out.append(g.query(j, select=(g.column(name, 's'),), where=g.cmp('>', g.column(name, 'v'), g.lit(0.0, 'float')),
+                           orderby=((g.column(name, 'd'), 'asc'), (g.column(name, 's'), 'desc'))))
+        out.append(g.query(g.join(j, b, 'inner', g.cmp('==', g.column(name, 'y'), g.column('B', 'x'))),
+                           select=(g.column(name, 'z'), g.column('B', 'w')), where=g.notnull(g.column(name, 'k'))))
+        out.append(g.query(j, select=(g.column(name, 'b'), g.alias(g.agg('count', g.column(name, 'x')), 'n')),
+                           groupby=(g.column(name, 'b'),)))
+    return out
 
 
 class _Lazy(list):
